@@ -125,7 +125,17 @@ func runScenario(sc scenario) {
 		// stay counted, or the proxy refuses everything once the server is back
 		opt.ObjQueueMax = 4
 	}
+	pushClient := sc.CloseKind == "down-call-up" && sc.Callers == 1 && sc.ID%2 == 1
+	if pushClient {
+		opt.IdleTimeout = 200 * time.Millisecond // keep-alive pings every 100 ms
+	}
 	cl := rpcw.NewDirect([]string{w.addr}, opt)
+	if pushClient {
+		// a push client keeps pinging while the server is away; pings that cannot be sent must not use
+		// up the proxy's bound on calls in flight
+		cl.App.ClientConfig().KeepAliveInterval = 0
+		cl.SP.SetPushCallback(func([]byte) {})
+	}
 	if sc.ID%2 == 0 && strings.HasPrefix(sc.CloseKind, "notice") {
 		// a proxy with a push callback registered (a push client) must honour the server's close
 		// notification like any other proxy
@@ -178,6 +188,9 @@ func runScenario(sc scenario) {
 			// then the server comes back on the same port
 			w.srv.Stop()
 			waitFor(func() bool { return clientClosed(cl) }, 2*time.Second)
+			if pushClient {
+				time.Sleep(450 * time.Millisecond) // four keep-alive periods without a server
+			}
 			for k := 0; k < 3; k++ {
 				if d, c, _ := call(cl, fmt.Sprintf("c11-%d-c%d-down%d", sc.ID, cyc, k)); c == "never-returned" {
 					run.Violation("call-never-returns", "down-call-up", fmt.Sprintf("a call issued while the server was down had not returned after %v; scenario %+v", d, sc), wit(map[string]interface{}{"cycle": cyc}))
